@@ -190,40 +190,40 @@ def _lowering_specs(rng, quick):
     bookkeeping of one direction is invisible in the others.)"""
     out = []
     combos = [(2, 0, -1), (3, 1, 0), (3, 1, -1), (3, 0, -1), (4, 2, -1), (4, 2, 1), (4, 2, 0), (4, 1, 0), (4, 1, -1)]
+    nets = [(2, 2), (2, 3), (3, 2), (3, 3)]
     reps = 1 if quick else 4
     n = 0
     for rep in range(reps):
         for pardim in (3, 2):
             for d in range(pardim):
                 use = combos if (pardim == 3 and d == 2) or not quick else combos[:5]
-                for (p, khi, klo) in use:
+                for ci, (p, khi, klo) in enumerate(use):
                     n += 1
-                    others = rng.choice([(2, 2), (3, 3), (2, 3), (3, 2)]) if n % 2 else rng.choice([(2, 3), (3, 2), (2, 2)])
-                    b1, b2, oi = [], [], 0
+                    others = nets[(ci + rep) % 4]
+                    bh, bl, oi = [], [], 0
                     for k in range(pardim):
                         if k == d:
-                            need = 2 * khi + 2
-                            hi = _basis(p, khi, _interior(rng, p, [], rng.randint(1, 2), need), rng=rng, mode=rng.choice(['unit', 'dyadic']))
-                            p2 = p if rng.random() < 0.7 else rng.randint(max(2, klo + 2), 4)
-                            klo2 = klo if klo <= p2 - 2 else p2 - 2
-                            lo = _basis(p2, klo2, _interior(rng, p2, [u for u, _ in []], rng.randint(0, 2), 2 * klo2 + 2 if klo2 >= 0 else 0),
+                            hi = _basis(p, khi, _interior(rng, p, [], rng.randint(1, 2), 2 * khi + 2), rng=rng,
+                                        mode=rng.choice(['unit', 'dyadic']))
+                            # same order in the w direction of volumes (the level count is then exactly khi - klo);
+                            # elsewhere the partner's order may differ as well
+                            p2 = p if (pardim == 3 and d == 2) or rng.random() < 0.6 else rng.randint(max(2, klo + 2), 4)
+                            lo = _basis(p2, klo, _interior(rng, p2, [], rng.randint(0, 2), 2 * klo + 2 if klo >= 0 else 0),
                                         rng=rng, mode=rng.choice(['unit', 'dyadic']))
-                            if n % 3 == 0:
-                                hi, lo = lo, hi
-                            b1.append(hi)
-                            b2.append(lo)
+                            bh.append(hi)
+                            bl.append(lo)
                         else:
                             nf = others[oi % 2]
                             oi += 1
-                            # open order-2 bases with nf functions (nf - 2 interior knots), different nets allowed
-                            ints = [(POOL[2 * j + 1], 1) for j in range(nf - 2)]
-                            b1.append(_basis(2, -1, ints, rng=rng, mode='dyadic'))
-                            ints2 = [(POOL[2 * j + 1], 1) for j in range(rng.choice([nf, 2, 3]) - 2)]
-                            b2.append(_basis(2, -1, ints2, rng=rng, mode='unit'))
-                    rat = rng.choice([(False, False), (True, False), (False, True)])
+                            # open order-2 bases: nf functions in the object to be lowered, any number in the partner
+                            bh.append(_basis(2, -1, [(POOL[2 * j + 1], 1) for j in range(nf - 2)], rng=rng, mode='dyadic'))
+                            bl.append(_basis(2, -1, [(POOL[2 * j + 1], 1) for j in range(rng.choice([nf, 2, 3]) - 2)], rng=rng,
+                                             mode='unit'))
+                    rat = [(False, False), (True, False), (False, True)][n % 3]
                     dim = 3 if pardim == 3 else rng.choice([2, 3])
-                    o1 = _obj(rng, b1, dim, rat[0])
-                    o2 = _obj(rng, b2, dim, rat[1])
+                    oh = _obj(rng, bh, dim, rat[0])
+                    ol = _obj(rng, bl, dim, rat[1])
+                    o1, o2 = (oh, ol) if n % 4 < 2 else (ol, oh)
                     direction = [None, d, SPELL[d][1], SPELL[d][2]][n % 4]
                     out.append({'kind': 'identical', 'o1': o1, 'o2': o2, 'direction': direction, 'stream': 'lowering'})
     return out
